@@ -1467,9 +1467,31 @@ def _is_boolish(v):
     return isinstance(v, bool) or (is_sym(v) and z3.is_bool(v))
 
 
+_PROPERTY_NAMES = None
+
+
+def _property_names():
+    """names of properties defined by repository classes (attribute loads of these run code and may branch)"""
+    global _PROPERTY_NAMES
+    if _PROPERTY_NAMES is None:
+        names = set()
+        for modname, mod in list(sys.modules.items()):
+            if modname.startswith(PKG) and mod is not None:
+                for v in vars(mod).values():
+                    if isinstance(v, type) and (v.__module__ or "").startswith(PKG):
+                        for k, a in vars(v).items():
+                            if isinstance(a, property):
+                                names.add(k)
+        _PROPERTY_NAMES = names
+    return _PROPERTY_NAMES
+
+
 def _pure_expr(e):
     """expression without calls (safe to evaluate eagerly in a merged boolean)"""
+    props = _property_names()
     for n in ast.walk(e):
+        if isinstance(n, ast.Attribute) and n.attr in props:
+            return False
         if isinstance(n, ast.Call):
             # total, side-effect free builtins on one argument are as good as operators
             if isinstance(n.func, ast.Name) and n.func.id in ("ord", "len") and len(n.args) == 1 and not n.keywords:
